@@ -26,8 +26,6 @@ EXTRA_SOURCES = re.compile(r"^(gix_utils::btoi::(to_signed|to_unsigned)(_with_ra
 # self-recursive functions whose recursion is bounded by consumption of input / a finite structure (reviewed)
 RECURSION_OK = {
     "gix_index::extension::tree::verify::<impl gix_index::extension::Tree>::verify::verify_recursive": "walks the already decoded (finite) tree of the extension",
-    "gix_index::extension::untracked_cache::decode_directory_block": "index into a directory list that strictly advances; each call consumes at least one byte",
-    "gix_index::extension::tree::decode::one_recursive": "each call consumes at least five bytes of the extension; depth bounded by extension size",
     "<gix_commitgraph::file::commit::Parents<'_> as core::iter::traits::iterator::Iterator>::next": "one re-dispatch after the state advanced to Extra",
     "gix_object::commit::ref_iter::<impl gix_object::CommitRefIter<'a>>::next_inner_": "re-dispatch after the state machine advanced to the next state (finite states)",
     "<gix_ref::store_impl::file::log::iter::Reverse<'_, F> as core::iter::traits::iterator::Iterator>::next": "re-dispatch after the read position moved backwards",
